@@ -63,6 +63,9 @@ structure Epoch where
   /-- the printed number of satellites (not read by the parser) -/
   numSat : Str
   clk : Cell
+  /-- the special records of an event epoch (flag 2–5: header records such as `COMMENT`, `MARKER NAME`,
+  `ANTENNA: DELTA H/E/N` … that follow the epoch record instead of satellites), as `(kind, cells)` -/
+  special : List (String × List Str)
   sats : List SatRec
   deriving Repr, DecidableEq, Inhabited
 
@@ -116,7 +119,8 @@ def obsCells (r : SatRec) : List Str := r.obs.flatMap fun o => [o.value.text, o.
 
 def satLine (r : SatRec) : Str := renderCells (obs3 r.obs.length) (r.sat :: obsCells r)
 
-def blockLines (e : Epoch) : List Str := epochLine e :: e.sats.map satLine
+def blockLines (e : Epoch) : List Str :=
+  epochLine e :: ((e.special.map fun kc => rec kc.1 kc.2) ++ e.sats.map satLine)
 
 def styled : Style → Str → Str
   | .asis, l => l
@@ -208,7 +212,15 @@ def SatRec.wf (hdr : List HdrRec) (r : SatRec) : Bool :=
   decide (r.obs.length = (typesOf hdr (r.sat.take 1)).length) && decide (r.obs.length ≤ 40) &&
   r.obs.all Obs.wf
 
+/-- a special record of an event epoch: any header record of the standard whose label starts with a letter (all
+but `# / TYPES OF OBSERV` and `# OF SATELLITES`) and whose line does not start with `>` -/
+def specialOk (kc : String × List Str) : Bool :=
+  (findKind kc.1).isSome && okCells kc.1 kc.2 &&
+  ((spec kc.1).label.toList.head?.map Char.isAlpha).getD false &&
+  !startsWith ['>'] (rec kc.1 kc.2)
+
 def Epoch.wf (hdr : List HdrRec) (e : Epoch) : Bool :=
+  e.special.all specialOk &&
   e.year.wf 4 && e.month.wf 2 && e.day.wf 2 && e.hour.wf 2 && e.minute.wf 2 && e.second.wf 11 &&
   e.flag.wf 1 && numText e.numSat && decide (e.numSat.length ≤ 3) && e.clk.wf 15 &&
   e.sats.all (SatRec.wf hdr)
@@ -296,26 +308,5 @@ def expected (rate : Option Rat) (F : File) : Except Err State :=
   match headerState rate F.hdr with
   | .ok H => .ok { H with data := expectedData rate F H.data, cache := {} }
   | .error e => .error e
-
-/-- the data dictionary at `END OF HEADER`: one empty column per type, no rows -/
-def emptyData (hdr : List HdrRec) (d0 : Data) : Data :=
-  { d0 with
-    obs := (allTypes hdr).map fun t => (t, []), lli := (allTypes hdr).map fun t => (t, []),
-    snr := (allTypes hdr).map fun t => (t, []),
-    time := [], timeMicros := [], epochFlag := [], clk := [], station := [], system := [], satellite := [], satnum := [] }
-
-/-- what the data section relies on at `END OF HEADER`, as a test on `headerState` (the handlers run on the
-header's *values*): the list of all types, the sampling rate, the marker name, the type list of every system,
-empty columns -/
-def hdrOk (rate : Option Rat) (hdr : List HdrRec) : Bool :=
-  match headerState rate hdr with
-  | .error _ => true
-  | .ok H =>
-    H.obstypesAll == allTypes hdr && H.rate == rate &&
-    (match markerOf hdr with
-     | some m => H.metaD.get [key "marker_name"] == some (.text m)
-     | none => false) &&
-    (sysTypes hdr).all (fun st => H.metaD.get [key "obstypes", st.1] == some (.list st.2)) &&
-    H.data == emptyData hdr H.data
 
 end Midgard.Spec.Rinex3ObsFile
